@@ -193,7 +193,7 @@ def sched_plan(r, est=300, ustep=0.12):
     # of instructions after the n-th LOCK-prefixed / xchg instruction of a segment (the scheduling points of loom / shuttle;
     # measured 10x more effective against a seeded lost-update race than blind counts), "blind" after a log-uniform count.
     if ustep and r.random() < float(ustep):
-        s["ustep_budget"] = 6000  # single-steps per run (about 0.2 s)
+        s["ustep_budget"] = 60  # preemption attempts per run (at most about 0.3 s of single-stepping)
         if r.random() < 0.7:
             s["ustep_p"], s["ustep_max"] = r.choice([(0.1, 150), (0.15, 200), (0.3, 100)])
             s["ustep_locks"] = r.choice([3, 4, 6])
